@@ -142,7 +142,12 @@ func (its *WiredDatatype) checkOptionAndError(ppp *model.PushPullPack) errors.Or
 			return errors.ClientSync.New(its.L(), errOp.GetPushPullError().Msg)
 		}
 		return errors.ClientSync.New(its.L(), "error response without ErrorOperation")
-	} else if ppp.GetPushPullPackOption().HasSubscribeBit() &&
+	}
+	if ppp.GetCheckPoint() == nil {
+		// everything below (which operations are new, how far the replica is synchronized) is derived from the CheckPoint.
+		return errors.ClientSync.New(its.L(), "response without CheckPoint")
+	}
+	if ppp.GetPushPullPackOption().HasSubscribeBit() &&
 		(its.state == model.StateOfDatatype_DUE_TO_SUBSCRIBE || its.state == model.StateOfDatatype_DUE_TO_SUBSCRIBE_CREATE) {
 		// only a datatype that is still waiting for its subscription is reset: a duplicated or delayed
 		// subscribe response must not wipe a subscribed replica and the operations it has not pushed yet.
